@@ -10,7 +10,7 @@
    function g with parameters A and body `body; return Rt`; shared = defined at module level beside
    module-level host code. *)
 From Coq Require Import List NArith ZArith Bool.
-From RopeVerif.C03 Require Import Flow Collector Dataflow Current LiveProofs OutlineProofs CollectorProofs Witnesses Sufficient SufficientProofs.
+From RopeVerif.C03 Require Import Flow Collector Dataflow Current LiveProofs OutlineProofs CollectorProofs Witnesses Sufficient SufficientProofs OneLine OneLineProofs ExtractVar ExtractVarProofs.
 Import ListNotations.
 
 (* The outlining lemma, independent of rope. outline_ok (coq/C03/Dataflow.v) is the conjunction of: the
@@ -140,16 +140,18 @@ Example C03_collector_sufficient_nonvacuous :
 Proof. vm_compute. reflexivity. Qed.
 Print Assumptions C03_collector_sufficient_nonvacuous.
 
-(* The four committed fixes: the current discipline satisfies the outlining hypotheses on the witnesses of the
-   four fixed defects (so by C03_extract_preserves they are now extracted correctly; their replays are corpus
-   cases that must pass), and one further switch each would do the same for the two repairable open defects. *)
+(* The five committed fixes (25782e7, c0fa7ad, f6cf806, 99f0982, 98267e1): the current discipline satisfies the
+   outlining hypotheses on the witnesses of the five fixed defects (so by C03_extract_preserves they are now
+   extracted correctly; their replays are corpus cases that must pass), and one further switch each would do the
+   same for two repairable open defects (maybe-written-read, loop-carried). *)
 Theorem C03_fixed_defects_sound :
   repaired current false [va; vb] w_nested = true
   /\ repaired current false [va] w_branch = true
   /\ repaired current false [va] w_loopdepth = true
   /\ repaired current true [] w_module = true
   /\ repaired (sw_or current (only false false false true false false)) false [va; vb] w_readmaybe = true
-  /\ repaired (sw_or current (only false false false false true false)) false [va] w_loopcarried = true.
+  /\ repaired (sw_or current (only false false false false true false)) false [va] w_loopcarried = true
+  /\ repaired current false [va] w_compiter = true.
 Proof. exact current_compute. Qed.
 Print Assumptions C03_fixed_defects_sound.
 
@@ -200,6 +202,16 @@ Theorem C03_loop_carried_refuted :
 Proof. exact loop_carried_refuted. Qed.
 Print Assumptions C03_loop_carried_refuted.
 
+(* the iterable of a comprehension is evaluated in the enclosing scope, but a read there of an outer name that is
+   spelled like the comprehension's loop variable is discarded by `read - comp_names | read`: the name is not
+   passed to the new function *)
+(* FIXED by 98267e1; statement about the discipline just before that commit (before_98267e1) *)
+Theorem C03_comprehension_iterable_refuted :
+  exists p', extract before_98267e1 false [va] w_compiter = Some p'
+             /\ run 5 [va] [2]%Z p' <> run 5 [va] [2]%Z (orig w_compiter).
+Proof. exact comprehension_iterable_refuted. Qed.
+Print Assumptions C03_comprehension_iterable_refuted.
+
 (* a name bound later in the enclosing loop body reaches the region in the next iteration but is not in
    prewritten: it is not passed, the new function raises NameError from the second iteration on (passing it would raise
    in the first iteration: this region cannot be extracted by parameter passing at all and should be refused) *)
@@ -245,3 +257,51 @@ Theorem C03_repaired_disciplines_partial :
   /\ repaired (only false false false false false true) true [] w_module = true.
 Proof. exact repairs_compute. Qed.
 Print Assumptions C03_repaired_disciplines_partial.
+
+(* One-line (sub-expression) selections, the textual refusal condition _is_region_on_a_word: a selection
+   [start, stop) is refused as "on a word" exactly when one of its borders lies strictly inside a run of word
+   characters (alphanumeric per the input table, or `_`), i.e. cuts an identifier, keyword or number. The
+   harness compares region_on_a_word with the real refusal on selections that cut identifiers at letters,
+   digits, underscores and non-ASCII letters. *)
+Theorem C03_word_cut_refusal :
+  forall alnum src start stop, 0 < stop ->
+    region_on_a_word alnum src start stop = cuts_border alnum src start || cuts_border alnum src stop.
+Proof. exact region_on_a_word_spec. Qed.
+Print Assumptions C03_word_cut_refusal.
+
+(* `count` inside `max_count` (m a x _ c o u n t = 109 97 120 95 99 111 117 110 116): refused; the whole name: not *)
+Example C03_word_cut_nonvacuous :
+  let alnum := fun c => N.leb 97 c && N.leb c 122 in
+  let src := [32; 109; 97; 120; 95; 99; 111; 117; 110; 116; 32]%N in
+  region_on_a_word alnum src 5 10 = true /\ region_on_a_word alnum src 1 10 = false
+  /\ region_on_a_word alnum src 1 4 = true.
+Proof. vm_compute. repeat split; reflexivity. Qed.
+Print Assumptions C03_word_cut_nonvacuous.
+
+(* Extract variable. C03_variable at full strength would say: for every statement of the host (at any nesting
+   depth, including the tests of if/while and the range of for) and every selected sub-expression, putting
+   `v = sub` in front of the statement and replacing the occurrence by v preserves behaviour. That is false for
+   rope (open findings: the test of a while loop is evaluated once; an expression inside a comprehension that
+   uses its loop variable is moved out of it). Proved variant: the statement is a simple statement (assignment,
+   augmented assignment, print, return) at the top level of the function body, the selection is reached through
+   binary operators only (it cannot lie inside a comprehension), and the new name is read nowhere in the
+   function. Then the behaviour is preserved for every argument vector and fuel, including the case in which a
+   name of the selection is unbound (both fail before anything is printed). Not proved (no counterexample known,
+   covered by the execution oracle of the sub-expression stream): statements nested in compound statements, the
+   tests of `if` and the ranges of `for`. *)
+Theorem C03_variable_partial :
+  forall params pre s post v l p ss,
+    simple_s s = true -> extract_variable v l s p = Some ss ->
+    ~ In v (reads (pre ++ s :: post)) ->
+    nocall post = true -> conv_b post k0 = true ->
+    forall n vec, run n params vec (pre ++ ss ++ post) = run n params vec (pre ++ s :: post).
+Proof. exact variable_sound. Qed.
+Print Assumptions C03_variable_partial.
+
+(* x = (a + 1) * b with `a + 1` selected: v = a + 1; x = v * b *)
+Example C03_variable_nonvacuous :
+  extract_variable 9%N 0%N (SAssign 2 vx (EBin Mul (EBin Add (EVar va) (EConst 1)) (EVar vb))) [false]
+  = Some [SAssign 0 9%N (EBin Add (EVar va) (EConst 1)); SAssign 2 vx (EBin Mul (EVar 9%N) (EVar vb))]
+  /\ ~ In 9%N (reads ([] ++ SAssign 2 vx (EBin Mul (EBin Add (EVar va) (EConst 1)) (EVar vb)) :: [SReturn 3 (EVar vx)])).
+Proof. split; [reflexivity|]. vm_compute. intuition discriminate. Qed.
+Print Assumptions C03_variable_nonvacuous.
